@@ -31,6 +31,7 @@ THEOREMS = [
     "BeyondVerif.C09.fresh_reachable",
     "BeyondVerif.C09.interpolate_uses_current_coordinates",
     "BeyondVerif.C09.setters_write_through",
+    "BeyondVerif.C09.settings_survive_conversion",
     "BeyondVerif.C09.callRefuses_iff",
     "BeyondVerif.C09.lagrangeRefuses_iff",
     "BeyondVerif.C09.linearSlice_eq",
@@ -68,7 +69,7 @@ LEVEL_TEXT = ("Lean theorems over R about a model of Interp and of Ephem around 
               "uniform or not, ends of the table included) with the instance 'circular orbit up to GEO, order 8, step <= period/100: every coordinate within 1 mm'; linear "
               "interpolation is exact at nodes — the last one included (_prev_idx at a node is the node before) — and on piecewise-linear data; abscissae outside and tables "
               "shorter than the order give an error, never a value; Ephem as a state machine over (points with identities, method, order, interpolator's array): replies of "
-              "interpolate/propagate are new objects, ephem[i] is the recorded one, and for every history of interpolations, propagations, index reads, frame/form changes, "
+              "interpolate/propagate are new objects, ephem[i] is the recorded one, the order and method last set survive every later interpolation and in-place conversion, and for every history of interpolations, propagations, index reads, frame/form changes, "
               "order/method settings and in-place modifications by the caller of objects it received, each reply is the interpolation of the current points with the current "
               "method and order, labelled with the current first point's frame and form and the requested date. Model tied to the real classes by an exact / 1e-10 "
               "differential correspondence (prev_idx, window recovered from one-hot ordinates, whole calls, Ephem operation histories incl. object identity).")
@@ -99,23 +100,32 @@ ASSUMPTIONS = [
 NOT_COVERED = [
     "'within centimetres for a smooth orbit': proved for circular orbits only (smooth_orbit_within_cm_partial: order 8, step <= period/100, radius <= 43 000 km: 1 mm per coordinate, over R); "
     "for eccentric Keplerian motion (no explicit bound of the 8th time derivative formalised) and for the rounding in doubles: oracle only "
-    "(Keplerian orbits e <= 0.05, step = period/100..200, orders 7..10, uniform and jittered: <= 5 cm at every position incl. first/last interval)",
+    "(Keplerian orbits e <= 0.05, step = period/100..200, orders 7..10, uniform, jittered and two-rate (ratio 2, 3): <= 5 cm at every position incl. first/last interval)",
+    "rounding on strongly non-uniform tables (step ratios 10..100, gaps): the theorems over R hold for every increasing table, but in doubles a window mixing very different steps has a "
+    "Lebesgue constant of 10^3..10^7 that multiplies the rounding of the ordinates and the 0.6 us granularity of Date._mjd (metres on an orbit). The rounding-tolerance clauses "
+    "(polynomial reproduction to 1e-7, centimetres on an orbit) are therefore asked of uniform / jittered / two-rate tables only ('mildly non-uniform' in the property); the exact clauses "
+    "(nodes, bracketing index, window, piecewise-linear data, refusals, labels, history = fresh object) of every sampling style",
 ]
 OPEN = [
     "the _prev_idx while-loop, Python slicing and Interp.__init__ are hand-modelled (tied by exact correspondence; extraction refuses when their source text changes) — not translated",
     "a bound of the derivatives of eccentric Keplerian motion, to instantiate interp_lagrange_error_bound beyond circular orbits",
 ]
-RULE = ("correspondence: random tables (length 1..40, order none/1..12, uniform / jittered / MJD abscissae, 1-D and 2-D ordinates, non-increasing and length-mismatched variants), "
+RULE = ("correspondence: random tables (length 1..40, order none/1..12; sampling uniform / jittered / two-rate (ratio 2, 3) / multirate (2..4 successive ranges, step ratios up to 100) / "
+        "with gaps of 3..25 steps / geometric steps; plain, integer and MJD abscissae; 1-D and 2-D ordinates, non-increasing and length-mismatched variants), "
         "abscissae at nodes, inside every kind of interval (first, last, interior, one ulp from a node), one ulp outside, far outside, NaN: Interp._prev_idx exact; "
         "window recovered from the real code by interpolating one-hot ordinates, exact; whole calls (error kind exact, linear bit-exact, Lagrange rtol 1e-10 — the driver runs the translated numpy chain); "
-        "Ephem objects (shuffled construction, default method/order, heterogeneous labels) under random operation histories of length 2..6 on ONE object: interpolate / propagate / iter(dates=) / "
+        "Ephem objects (shuffled construction, default method/order, heterogeneous labels, every sampling style) under random operation histories of length 2..9 on ONE object "
+        "(scenarios: plain / setters / conversions / `mixed` = settings and in-place conversions interleaved / objects): interpolate / propagate / iter(dates=) / "
         "iter(start, stop, step) / ephem[i] (negative and out-of-range indices) / in-place modification (values, form, frame) of an object received earlier — new or recorded — / order and method setters / "
         "frame and form setters, query dates expressed in UTC, TAI, TT, GPS: reply kind, identity (new object vs recorded point), form, frame, date exact, coordinates 1e-10; "
         "non-trivial = the call returns a value; distinct = distinct request line. "
-        "oracle: node exactness, polynomial reproduction (1e-7), piecewise-linear reproduction, refusal outside / too short, labels, stale-cache scenario, "
+        "oracle: node exactness, piecewise-linear reproduction, refusal outside / too short, labels on tables of every sampling style; polynomial reproduction (1e-7) on the mild ones "
+        "(uniform, jittered, two-rate); stale-cache scenario; random histories of interpolations, `ephem.interp` reads, order / method settings and in-place frame / form conversions on one "
+        "ephemeris: getters read back the last setting and every interpolation equals bit for bit that of a new Ephem of the current points with the current method / order (`history-vs-fresh/*`); "
         "query dates in other time scales (TAI/TT/GPS/UTC exact, UT1/TDB to 2 us) with real EOP tables, order/method setters on live ephemerides and interpolators vs fresh ones, "
         "every API that computes a point (interpolate, propagate, iter(dates), iter(step), iter(), ephem()) hands out a new object and modifying it in place changes neither the table nor later answers, "
-        "cm accuracy on Keplerian orbits, all on the real API")
+        "cm accuracy on Keplerian orbits (uniform, jittered +-20 %, two-rate: 5 cm, for two-rate plus the 0.6 us granularity of a double MJD times the Lebesgue constant of the window), "
+        "all on the real API")
 
 INTERP_PY = os.path.join(core.REPO, "beyond", "utils", "interp.py")
 EPHEM_PY = os.path.join(core.REPO, "beyond", "orbits", "ephem.py")
@@ -512,16 +522,55 @@ def mk_ephem(times, coords, method=None, order=None, form="cartesian", frame="EM
     return Ephem(pts, method=method, order=order)
 
 
-def gen_times(rng, n, uniform=None):
-    """n strictly increasing times (seconds, multiples of 1 ms); uniform or mildly jittered"""
+STYLES = ["uniform", "uniform", "jitter", "jitter", "two-rate", "multirate", "multirate", "gap", "geometric"]
+# `mildly non-uniform` in the sense of the property: the clauses whose tolerance is a rounding allowance (polynomial reproduction, centimetres on an
+# orbit) are asked of these only — a window mixing steps in a ratio 10..100 has a Lebesgue constant of 10^3..10^7, which multiplies the rounding of the
+# ordinates and the 0.6 us granularity of a double MJD. Exact clauses (nodes, bracketing, piecewise-linear, refusals, labels, history = fresh) are asked of all.
+MILD = ("uniform", "jitter", "two-rate")
+
+
+def gen_steps(rng, n, step, style):
+    """n-1 positive steps of a table of n abscissae. The abscissae of Interp only have to be increasing:
+    uniform / mildly jittered (±30 %) / multirate (2..4 successive ranges, each with its own constant step, ratios up to 10 —
+    the example of the Ephem.iter docstring, a multi-rate OEM) / gap (uniform with one or two missing stretches of 3..25 steps) /
+    geometric (every step a fixed ratio of the one before)"""
+    m = max(n - 1, 0)
+    if style == "uniform":
+        return [step] * m
+    if style == "jitter":
+        return [step * rng.uniform(0.7, 1.3) for _ in range(m)]
+    if style == "two-rate":      # two successive ranges, steps in a ratio 2 or 3 (the example of the Ephem.iter docstring: 3)
+        cut, ratio = rng.randrange(m + 1), rng.choice([2.0, 3.0])
+        big_first = rng.random() < 0.5
+        return [step if (i < cut) == big_first else step / ratio for i in range(m)]
+    if style == "multirate":
+        nseg = rng.randint(2, 4)
+        cuts = sorted(rng.randrange(m + 1) for _ in range(nseg - 1))
+        rates = [rng.choice([1.0, 2.0, 3.0, 4.0, 6.0, 10.0, 0.5, 0.25, 0.2, 0.1]) for _ in range(nseg)]
+        if len(set(rates)) == 1:
+            rates[-1] = rates[0] * rng.choice([0.2, 5.0])
+        return [step * rates[sum(1 for c in cuts if c <= i)] for i in range(m)]
+    if style == "gap":
+        holes = {rng.randrange(m): rng.randint(3, 25) for _ in range(rng.randint(1, 2))} if m else {}
+        return [step * holes.get(i, 1) for i in range(m)]
+    if style == "geometric":
+        r = rng.choice([0.8, 0.9, 1.1, 1.25])
+        r = r if r ** m < 1e3 and r ** m > 1e-3 else (1.0 + (r - 1.0) * 6.0 / max(m, 6))
+        return [step * r ** i for i in range(m)]
+    raise ValueError(style)
+
+
+def gen_times(rng, n, style=None):
+    """n strictly increasing times (seconds, multiples of 1 ms) in one of the sampling styles of `gen_steps`;
+    returns (times, nominal step, style)"""
     step = rng.choice([10.0, 30.0, 60.0, 180.0, 600.0])
-    uniform = rng.random() < 0.5 if uniform is None else uniform
+    style = rng.choice(STYLES) if style is None else style
     t = q(rng.uniform(0, 3600.0))
-    out = []
-    for _ in range(n):
+    out = [t]
+    for h in gen_steps(rng, n, step, style):
+        t = q(t + max(h, 0.5))
         out.append(t)
-        t = q(t + (step if uniform else step * rng.uniform(0.7, 1.3)))
-    return out, step, uniform
+    return out[:n], step, style
 
 
 def gen_query(rng, times, where=None):
@@ -578,7 +627,7 @@ def gen_table(rng):
     """abscissae (floats, strictly increasing unless `broken`), rows, order"""
     order = rng.choice([None, 1] + list(range(2, 13)) * 3)
     n = rng.choice([1, 2, rng.randint(1, 12), rng.randint(2, 40), (order or 2), (order or 2) + 1, (order or 2) + rng.randint(0, 28), (order or 2) + rng.randint(0, 28)])
-    style = rng.choice(["uniform", "jitter", "jitter", "mjd", "int"])
+    style = rng.choice(["uniform", "jitter", "mjd", "mjd", "int", "multirate", "multirate", "gap", "geometric"])
     if style == "uniform":
         h = rng.choice([0.5, 1.0, 60.0])
         x0 = rng.uniform(-100, 100)
@@ -590,10 +639,11 @@ def gen_table(rng):
         xs = [58849.0 + t / 86400.0 for t in ts]
     else:
         x = rng.uniform(-100, 100)
-        xs = []
-        for _ in range(n):
+        xs = [x]
+        for h in gen_steps(rng, n, rng.choice([1.0, 1.0, 0.01, 60.0]), style):
+            x += h
             xs.append(x)
-            x += rng.uniform(0.7, 1.3)
+        xs = xs[:n]
     d = rng.choice([0, 1, 3, 6])     # 0 = 1-D ordinates
     mag = rng.choice([1.0, 1e3, 7e6])
     ys = [[rng.uniform(-1, 1) * mag for _ in range(max(d, 1))] for _ in range(n)]
@@ -640,7 +690,8 @@ def correspondence(ctx):
         order, xs, ys, d, style = gen_table(rng)
         x, pos = gen_x(rng, xs)
         f = Interp(xs, ys, "linear")
-        real = f"ok {int(f._prev_idx(x))}"
+        pk, pv = error_kind(lambda: int(f._prev_idx(x)))      # a changed search may raise where the bisection never does
+        real = f"ok {pv}" if pk == "ok" else pk
         add(" ".join(["c9prev", str(len(xs)), f2b(x)] + [f2b(v) for v in xs]), "prev", real, {"xs": xs, "x": x})
         out.count(key=reqs[-1], nontrivial=len(xs) >= 2, kind="prev_idx-" + pos, n=min(len(xs), 13))
     # 2. the window, recovered from the real code by interpolating one-hot ordinates at a non-node abscissa
@@ -663,7 +714,8 @@ def correspondence(ctx):
         else:
             w = np.asarray(w)
             supp = [i for i in range(n) if w[i] != 0.0] or [0]
-            real = f"ok {int(f._prev_idx(x))} {supp[0]} {supp[-1] + 1}" if supp == list(range(supp[0], supp[-1] + 1)) else f"support {supp}"
+            pk, pv = error_kind(lambda: int(f._prev_idx(x)))
+            real = f"ok {pv if pk == 'ok' else pk} {supp[0]} {supp[-1] + 1}" if supp == list(range(supp[0], supp[-1] + 1)) else f"support {supp}"
         add(" ".join(["c9window", str(order), str(n), f2b(x)] + [f2b(v) for v in xs]), "window", real, {"xs": xs, "x": x, "order": order})
         out.count(key=reqs[-1], kind="window-" + pos, order=order, edge="start" if supp[0] == 0 else "stop" if supp[-1] == n - 1 else "none")
     # 3. whole calls
@@ -771,10 +823,11 @@ def eph_case(out, rng, add):
     eff = 8 if order is None else order
     n = rng.choice([eff, eff + 1, eff + rng.randint(0, 12), max(1, eff - rng.randint(1, 3))])
     method = rng.choice([None, None, "lagrange", "linear"])
-    times, step, uniform = gen_times(rng, n)
+    times, step, style = gen_times(rng, n)
     hetero = rng.random() < 0.15
-    scenario = rng.choice(["plain", "setters", "setters", "convert-form", "convert-frame", "objects", "objects", "objects", "objects"]) if not hetero else "plain"
-    keplerian = scenario.startswith("convert") or (scenario == "objects" and rng.random() < 0.5)
+    # `mixed`: order / method settings AND in-place frame / form conversions interleaved with interpolations on one object
+    scenario = rng.choice(["plain", "setters", "convert-form", "convert-frame", "mixed", "mixed", "mixed", "objects", "objects", "objects", "objects"]) if not hetero else "plain"
+    keplerian = scenario.startswith("convert") or scenario == "mixed" or (scenario == "objects" and rng.random() < 0.5)
     if not keplerian:
         coords = [[rng.uniform(-1, 1) * (7e6 if c < 3 else 7e3) for c in range(6)] for _ in range(n)]
         forms = [rng.choice(["cartesian", "keplerian"]) for _ in range(n)] if hetero else [rng.choice(["cartesian", "keplerian", "spherical"])] * n
@@ -813,8 +866,14 @@ def eph_case(out, rng, add):
             return gen_query(rng, times)
         return rng.choice([(q(times[0] - 1.0), "outside"), (q(times[-1] + 0.5), "outside"), (times[0], "node"), (times[-1], "node")])
 
+    cur = {"order": eff, "lam": 1e3}
+
     def op_interp(t, via):
         dq = d0 + timedelta(seconds=t)
+        if n >= 2 and times[0] <= t <= times[-1] and 1 <= cur["order"] <= n:
+            # summation-order allowance: the Lebesgue constant of the window (huge when it mixes very different steps)
+            i = min(max(j for j in range(n) if times[j] <= t), n - 2)
+            cur["lam"] = max(cur["lam"], 10 * lebesgue_max(times, max(cur["order"], 2), i, t) if n >= max(cur["order"], 2) else 0)
         sc = rng.choice(["UTC", "UTC", "TAI", "TT", "GPS"])      # the same instant expressed in another time scale
         if sc != "UTC":
             dq = dq.change_scale(sc)
@@ -830,16 +889,18 @@ def eph_case(out, rng, add):
 
     any_lagrange = method in (None, "lagrange")
     first = query()
-    nops = rng.randint(2, 6)
+    nops = rng.randint(4, 9) if scenario == "mixed" else rng.randint(2, 6)
     for k in range(nops):
         r = rng.random()
+        sub = rng.choice(["setters", "setters", "convert-form", "convert-frame"]) if scenario == "mixed" else scenario
         if scenario == "plain" or r < 0.45 or (k == nops - 1):
             t, pos = first if (k == nops - 1 and scenario != "plain") else query()
             op_interp(t, rng.choice(["I", "I", "I", "P", "T"]))
-        elif scenario == "setters":
+        elif sub == "setters":
             if rng.random() < 0.7:
                 k2 = rng.choice([2, 3, 4, 7, 8, 9, 12, rng.randint(1, 12)])
                 eph.order = k2
+                cur["order"] = k2
                 toks.extend(["O", str(k2)])
                 trace.append("O")
             else:
@@ -848,8 +909,8 @@ def eph_case(out, rng, add):
                 toks.extend(["M", "g" if m2 == "lagrange" else "l"])
                 any_lagrange = any_lagrange or m2 == "lagrange"
                 trace.append("M")
-        elif scenario.startswith("convert"):
-            if scenario == "convert-form":
+        elif sub.startswith("convert"):
+            if sub == "convert-form":
                 eph.form = rng.choice(["keplerian", "spherical", "cartesian"])
             else:
                 eph.frame = rng.choice(["ITRF", "MOD", "TEME", "EME2000"])
@@ -898,7 +959,7 @@ def eph_case(out, rng, add):
                 amax.append(np.abs(np.array([np.asarray(x, dtype=float) for x in eph._orbits])).max(axis=0))
             else:
                 op_interp(*query()[:1], "I")
-    scale = [float(max(a[c] for a in amax)) * 1e3 for c in range(6)]   # |l_j| sum bounded by ~1e3 up to order 12 inside the table
+    scale = [float(max(a[c] for a in amax)) * cur["lam"] for c in range(6)]   # |l_j| sum: ~1e3 up to order 12 on mild tables, computed for the others
     add(" ".join(toks), "eph", real, {"times": times, "order": order, "method": method, "scenario": scenario, "history": trace}, scale=scale,
         lagrange=any_lagrange)
     for t in trace:
@@ -936,7 +997,7 @@ def oracle(ctx, widened):
     for _ in range(3000 if big else 300):
         order = rng.randint(2, 12)
         n = rng.choice([order, order + 1, order + rng.randint(0, 28)])
-        times, step, uniform = gen_times(rng, n)
+        times, step, style = gen_times(rng, n)
         xs = np.array([58849.0 + t / 86400.0 for t in times])
         if not all(a < b for a, b in zip(xs, xs[1:])):
             continue
@@ -961,14 +1022,14 @@ def oracle(ctx, widened):
                          {"xs": list(map(float, xs)), "order": order, "node": j, "ys": ys.tolist()}, observed=np.asarray(r).tolist(), expected=ys[j].tolist())
                 break
         # b. polynomials of degree < order are reproduced, in every interval incl. the first and the last
-        for _ in range(6):
+        for _ in range(6 if style in MILD else 0):
             t, pos = gen_query(rng, times)
             x = 58849.0 + t / 86400.0
             if not (xs[0] <= x <= xs[-1]):
                 continue
             r = guarded(out, f"inside-refused/lagrange/{pos}", {"xs": list(map(float, xs)), "order": order, "x": float(x)}, lambda: f(x))
             e = P(x)
-            out.count(key=("poly", order, n, x), kind="poly-" + pos, order=order, uniform=uniform, deg=deg)
+            out.count(key=("poly", order, n, x), kind="poly-" + pos, order=order, sampling=style, deg=deg)
             if r is None:
                 continue
             r = np.asarray(r)
@@ -1027,7 +1088,7 @@ def oracle(ctx, widened):
     for _ in range(400 if big else 60):
         order = rng.randint(2, 12)
         n = rng.choice([order, order + 1, order + rng.randint(0, 28)])
-        times, step, uniform = gen_times(rng, n)
+        times, step, style = gen_times(rng, n)
         deg = rng.randint(0, order - 1)
         coef = [[rng.uniform(-1, 1) * (7e6 if c < 3 else 7e3) for _ in range(deg + 1)] for c in range(6)]
         scale = np.array([sum(abs(c) for c in cs) for cs in coef])
@@ -1067,7 +1128,7 @@ def oracle(ctx, widened):
             if (str(r.frame), str(r.form), r.date) != (frame, form, dq):
                 out.fail("frame-form-not-kept/" + pos, "interpolated point does not carry the ephemeris' frame, form and the requested date", dict(info, t=t),
                          observed=[str(r.frame), str(r.form), str(r.date)], expected=[frame, form, str(dq)])
-            if method == "lagrange":
+            if method == "lagrange" and style in MILD:
                 e = P(dq._mjd)
                 if not np.all(np.abs(np.asarray(r) - e) <= 1e-7 * scale):
                     out.fail(f"poly-reproduction/ephem/{pos}/order-{par(order)}", f"Ephem.interpolate (order {order}) does not reproduce a polynomial trajectory of degree {deg}",
@@ -1104,6 +1165,10 @@ def oracle(ctx, widened):
     for _ in range(300 if big else 40):
         setter_case(out, rng)
 
+    # ---- 3c'. any history of settings, in-place conversions and interpolations on ONE ephemeris answers like a fresh one
+    for _ in range(250 if big else 40):
+        history_case(out, rng)
+
     # ---- 3d. what the ephemeris hands out is a new object: modifying it in place never reaches the table
     for _ in range(400 if big else 50):
         alias_case(out, rng)
@@ -1126,6 +1191,22 @@ def kepler_ephem(rng, n=30):
     return kep, period, sma, ecc
 
 
+def lebesgue_max(times, order, i, t):
+    """max over the windows [a, a+order) containing rows i and i+1 of sum_j |l_j(t)|"""
+    best = 1.0
+    for a in range(max(0, i + 2 - order), min(i, len(times) - order) + 1):
+        w = times[a:a + order]
+        lam = 0.0
+        for j, xj in enumerate(w):
+            p = 1.0
+            for m, xm in enumerate(w):
+                if m != j:
+                    p *= (t - xm) / (xj - xm)
+            lam += abs(p)
+        best = max(best, lam)
+    return best
+
+
 def orbit_case(out, rng):
     import numpy as np
     from beyond.orbits import Ephem
@@ -1135,10 +1216,15 @@ def orbit_case(out, rng):
     step = q(period / frac, 1.0)
     order = rng.choice([7, 8, 8, 9, 10])
     n = rng.randint(order, 40)
-    uniform = rng.random() < 0.5
+    # uniform, jittered (±20 %) or two successive ranges whose steps are in a ratio 2 or 3 (the example of the Ephem.iter docstring), the
+    # LARGEST step being period/frac. (Wilder ratios are outside the clause: a date is a double MJD, 0.6 us, i.e. millimetres of
+    # along-track noise, which a window mixing steps of very different sizes amplifies by its Lebesgue constant — 10^3 for a ratio 40.)
+    style = rng.choice(MILD)
+    hs = gen_steps(rng, n, 1.0, style) if style != "jitter" else [rng.uniform(0.8, 1.2) for _ in range(n - 1)]
+    hmax = max(hs)
     times = [0.0]
-    for _ in range(n - 1):
-        times.append(q(times[-1] + (step if uniform else step * rng.uniform(0.8, 1.2))))
+    for h in hs:
+        times.append(q(times[-1] + step * h / hmax))
     d0 = base_date()
     pts = [kep.propagate(d0 + timedelta(seconds=t)).copy(form="cartesian") for t in times]
     eph = Ephem(pts, order=order)
@@ -1150,10 +1236,16 @@ def orbit_case(out, rng):
             continue
         true = kep.propagate(dq).copy(form="cartesian")
         err = float(np.linalg.norm(np.asarray(r)[:3] - np.asarray(true)[:3]))
-        out.count(key=("orbit", sma, t, order), kind="orbit-" + pos, order=order, uniform=uniform)
-        if not (err <= 0.05):
+        out.count(key=("orbit", sma, t, order), kind="orbit-" + pos, order=order, sampling=style)
+        tol = 0.05
+        if style == "two-rate":
+            # dates are double MJDs (0.6 us): every tabulated point is up to |v| * 0.3 us off its abscissa, the interpolant carries that times
+            # the Lebesgue constant of its window — here the largest one over the windows of `order` consecutive rows containing the bracket
+            i = max(j for j in range(len(times) - 1) if times[j] <= t)
+            tol += lebesgue_max(times, order, i, t) * math.sqrt(MU * (1 + ecc) / (sma * (1 - ecc))) * 0.6e-6
+        if not (err <= tol):
             out.fail(f"orbit-accuracy/{pos}/order-{par(order)}", f"interpolated position is {err:.3f} m from the true one (step = period/{frac}, order {order})",
-                     {"sma": sma, "ecc": ecc, "kep": list(map(float, kep)), "times": times, "t": t, "order": order}, observed=err, expected="<= 0.05 m")
+                     {"sma": sma, "ecc": ecc, "kep": list(map(float, kep)), "times": times, "t": t, "order": order, "sampling": style}, observed=err, expected=f"<= {tol:.3f} m")
 
 
 def scale_case(out, rng):
@@ -1279,6 +1371,83 @@ def alias_case(out, rng):
                  observed={"table_unchanged": same_table, "answers_unchanged": same_answer}, expected="table and answers unchanged")
 
 
+def history_case(out, rng):
+    """`reply_function_of_current_values` on the real class: a random history of interpolations, reads of `ephem.interp`,
+    `ephem.order = …`, `ephem.method = …`, `ephem.frame = …`, `ephem.form = …` (in any order, before and after the interpolator
+    exists) on ONE Ephem; after every step `ephem.method` / `ephem.order` read back what was set last, and every interpolation
+    equals, bit for bit and label for label, that of a brand new Ephem built from copies of the current points with the current
+    method and order. Tables in every sampling style."""
+    import numpy as np
+    from beyond.orbits import Ephem
+    from beyond.dates import timedelta
+    d0 = base_date()
+    kep, period, sma, ecc = kepler_ephem(rng)
+    m0 = rng.choice([None, None, "lagrange", "linear"])
+    k0 = rng.choice([None, None, 2, 4, 8, 11])
+    n = rng.choice([13, rng.randint(9, 30), rng.randint(3, 9)])
+    hs = gen_steps(rng, n, 1.0, rng.choice(STYLES))
+    step = q(period / 100, 1.0)
+    times = [0.0]
+    for h in hs:
+        times.append(q(times[-1] + max(step * h / max(hs), 0.25)))
+    pts = [kep.propagate(d0 + timedelta(seconds=t)).copy(form="cartesian") for t in times]
+    eph = Ephem(pts, method=m0, order=k0)
+    method, order = m0 or "lagrange", 8 if k0 is None else k0
+    live = getter_reported = False
+    hist, since = [], set()        # since: kinds of operations performed while the interpolator existed
+    inp = {"kep": list(map(float, kep)), "times": times, "method0": m0, "order0": k0}
+    nops = rng.randint(4, 10)
+    for k in range(nops):
+        op = rng.choice(["interp", "interp", "order", "method", "frame", "form", "touch"]) if k < nops - 1 else "interp"
+        if op == "touch":
+            kind, _ = error_kind(lambda: eph.interp)
+            hist.append("ephem.interp")
+            live = True
+        elif op == "order":
+            order = rng.choice([k2 for k2 in (2, 3, 4, 5, 7, 8, 9, 12) if k2 != order])
+            eph.order = order
+            hist.append(f"ephem.order = {order}")
+            since.add("order-set") if live else None
+        elif op == "method":
+            method = "linear" if method == "lagrange" else "lagrange"
+            eph.method = method
+            hist.append(f"ephem.method = {method!r}")
+            since.add("method-set") if live else None
+        elif op in ("frame", "form"):
+            cur = str(getattr(eph, op))
+            new = rng.choice([v for v in (("EME2000", "ITRF", "MOD", "TEME") if op == "frame" else ("cartesian", "keplerian", "spherical")) if v != cur])
+            kind, e = error_kind(lambda: setattr(eph, op, new))
+            hist.append(f"ephem.{op} = {new!r}")
+            if kind != "ok":
+                out.fail(f"conversion-refused/{op}", f"`ephem.{op} = {new!r}` raises", dict(inp, history=list(hist)), observed=kind + ": " + str(e)[:200], expected="converted in place")
+                return
+            since.add(op + "-conversion") if live else None
+        else:
+            t, pos = gen_query(rng, times)
+            dq = d0 + timedelta(seconds=t)
+            hist.append(f"interpolate(t={t})")
+            fresh = Ephem([o.copy() for o in eph._orbits], method=method, order=order)
+            ka, a = error_kind(lambda: eph.interpolate(dq))
+            kb, b = error_kind(lambda: fresh.interpolate(dq))
+            live = True
+            out.count(key=("history", sma, tuple(hist)), kind="history-" + ("+".join(sorted(since)) or "no-change-while-live"), nontrivial=ka == "ok", pos=pos)
+            fam = "+".join(sorted(since)) or "no-change-while-live"
+            if ka != kb or (ka == "ok" and not (np.array_equal(np.asarray(a, dtype=float), np.asarray(b, dtype=float))
+                                                 and (str(a.form), str(a.frame), a.date) == (str(b.form), str(b.frame), b.date))):
+                out.fail(f"history-vs-fresh/value/{fam}",
+                         f"after the history the ephemeris does not interpolate like a new Ephem of its current points with method={method!r}, order={order}",
+                         dict(inp, history=list(hist), t=t),
+                         observed=ka if ka != "ok" else [str(a.form), str(a.frame)] + np.asarray(a, dtype=float).tolist(),
+                         expected=kb if kb != "ok" else [str(b.form), str(b.frame)] + np.asarray(b, dtype=float).tolist())
+                return
+        got = (str(eph.method).lower(), eph.order)
+        if got != (method, order) and not getter_reported:
+            getter_reported = True
+            fam = "+".join(sorted(since)) or "no-change-while-live"
+            out.fail(f"history-vs-fresh/getter/{fam}", "`ephem.method` / `ephem.order` do not read back what was set last (or given at construction)",
+                     dict(inp, history=list(hist)), observed=list(got), expected=[method, order])
+
+
 def setter_case(out, rng):
     """interpolate with (method1, order k1); set ephem.order = k2 and/or ephem.method; interpolate in the same interval(s):
     must equal a fresh Ephem built with the final method / order on the same points; the same on a bare Interp"""
@@ -1292,7 +1461,7 @@ def setter_case(out, rng):
     m1 = rng.choice(["lagrange", "lagrange", "lagrange", "linear"])
     m2 = rng.choice(["lagrange", "lagrange", "linear"]) if rng.random() < 0.4 else m1
     n = rng.choice([max(k1, k2), max(k1, k2) + rng.randint(0, 20), max(2, min(k1, k2) + rng.randint(0, 3))])
-    times, step, uniform = gen_times(rng, n)
+    times, step, style = gen_times(rng, n)
     coef = [[rng.uniform(-1, 1) * (7e6 if c < 3 else 7e3) for _ in range(8)] for c in range(6)]
     span = times[-1] - times[0]
     coords = [[sum(a * ((t - times[0]) / span) ** k for k, a in enumerate(cs)) for cs in coef] for t in times]
